@@ -1,5 +1,6 @@
 """C04 — multiply returns the pointwise product or refuses."""
 import numpy as np
+import traceback
 
 import cirkit.symbolic.functional as SF
 from cirkit.symbolic.circuit import StructuralPropertyError
@@ -73,11 +74,11 @@ def one_case(rep, cs, seed, i):
         except Exception as e:
             rep.count("refused-chain:" + type(e).__name__)
     rest = sorted(sp.scope._set)
-    ys = gen.sample_inputs(rng, g1.doms, rest, 3, exhaustive_limit=6)
+    ys = gen.sample_inputs(rng, g1.doms, rest, 3, exhaustive_limit=6, nonneg=(sem == 'lse-sum'))
     try:
         ok, detail = opkit.oracle_multiply(a, b, sp, ys, sem, fold, opt)
     except Exception as e:
-        ok, detail = False, {"exception": repr(e)[:300]}
+        ok, detail = False, {"exception": repr(e)[:300], "traceback": traceback.format_exc()[-1500:]}
     if ok is False:
         sig = "multiply-wrong-value" if "exception" not in detail else "multiply-compile-exception:" + detail["exception"].split("(")[0]
         rep.violation(sig, "compiled multiply(c1,c2) differs from the Kronecker product of the compiled operands' outputs",
